@@ -136,16 +136,35 @@ def run(rep: Report) -> None:
     # R15.3
     w = prog.func("Quantity.__json__")
     rd = prog.func("Quantity.__from_json__")
-    wt = ast.unparse(w.node).replace(" ", "")
-    wok = "isinstance(magnitude,Decimal)" in wt and "magnitude=str(magnitude)" in wt
-    rep.check("R15.3", "Quantity.__json__:decimal", wok, "Quantity.__json__ does not turn exactly Decimal magnitudes into str", w.where())
-    rok = False
-    why = "no isinstance(magnitude, str) arm"
-    for n in ast.walk(rd.node):
-        if isinstance(n, ast.If) and ast.unparse(n.test).replace(" ", "") == "isinstance(magnitude,str)":
-            body = n.body
-            rok = len(body) == 1 and isinstance(body[0], ast.Assign) and ast.unparse(body[0].value).replace(" ", "") == "Decimal(magnitude)"
-            why = f"the str arm does `{ast.unparse(body[0])[:60]}`" + (f" (+{len(body) - 1} more statements)" if len(body) > 1 else "")
+
+    def conversion_arms(fn: ast.AST, test_type: str, conv: str) -> Tuple[bool, str]:
+        """Is there an `isinstance(<m>, test_type)` arm (statement or conditional expression)
+        whose result is exactly conv(<m>)?"""
+        found, why = False, f"no isinstance(magnitude, {test_type}) arm"
+        for n in ast.walk(fn):
+            test = body_expr = None
+            extra = 0
+            if isinstance(n, ast.If):
+                test = n.test
+                if len(n.body) >= 1 and isinstance(n.body[0], (ast.Assign, ast.Return)):
+                    body_expr = n.body[0].value
+                    extra = len(n.body) - 1
+            elif isinstance(n, ast.IfExp):
+                test, body_expr = n.test, n.body
+            if test is None or body_expr is None:
+                continue
+            tt = ast.unparse(test).replace(" ", "")
+            if not (tt.startswith("isinstance(") and tt.endswith(f",{test_type})")):
+                continue
+            var = tt[len("isinstance("):-len(f",{test_type})")]
+            got = ast.unparse(body_expr).replace(" ", "")
+            if got == f"{conv}({var})" and extra == 0:
+                return True, ""
+            found, why = False, f"the {test_type} arm does `{ast.unparse(body_expr)[:60]}`" + (f" (+{extra} more statements)" if extra else "")
+        return found, why
+    wok, wwhy = conversion_arms(w.node, "Decimal", "str")
+    rep.check("R15.3", "Quantity.__json__:decimal", wok, f"Quantity.__json__: {wwhy}; exactly Decimal magnitudes must be written as str", w.where())
+    rok, why = conversion_arms(rd.node, "str", "Decimal")
     rep.check("R15.3", "Quantity.__from_json__:decimal", rok, f"Quantity.__from_json__: {why}; a string magnitude was written for a Decimal "
               "and must come back as Decimal(text) - anything else changes the magnitude type", rd.where())
 
@@ -190,16 +209,35 @@ def run(rep: Report) -> None:
 
     # R15.5
     uf = prog.func("Unit.__from_json__")
-    t = ast.unparse(uf.node).replace(" ", "")
-    rep.check("R15.5", "Unit.__from_json__:base-by-name", "ifnotjson_object['factors']:returncls._by_name[json_object['name']]" in t.replace('"', "'").replace("\n", ""),
+    jparam = uf.params()[1]
+    base_ok = False
+    for n in ast.walk(uf.node):
+        if isinstance(n, (ast.If, ast.IfExp)) and f"{jparam}['factors']" in ast.unparse(n.test).replace('"', "'"):
+            for sub in ast.walk(n):
+                if isinstance(sub, ast.Subscript) and ast.unparse(sub.value).endswith("._by_name") and f"{jparam}['name']" in ast.unparse(sub.slice).replace('"', "'"):
+                    base_ok = True
+                if isinstance(sub, ast.Call) and ast.unparse(sub.func).endswith(".named"):
+                    base_ok = True
+    rep.check("R15.5", "Unit.__from_json__:base-by-name", base_ok,
               "a unit serialised without factors (a base unit) is no longer resolved by its name", uf.where())
-    rep.check("R15.5", "Unit.__from_json__:derived", "Unit(prefix,factors,dimension)" in t or "cls(prefix,factors,dimension)" in t,
-              "derived units are not rebuilt through the interning constructor", uf.where())
+    ctor = [cs for cs in resolver.callsites(uf.qual) if cs.external == "ctor:Unit" and (len(cs.args) + len(cs.kwargs)) >= 3]
+    rep.check("R15.5", "Unit.__from_json__:derived", bool(ctor),
+              "derived units are not rebuilt through the interning constructor Unit(prefix, factors, dimension)", uf.where())
     unnamed = [u for u in ev.unit_by_id.values() if u.is_base and not u.names]
     rep.check("R15.5", "base-units-named", not unnamed, f"{len(unnamed)} base unit(s) without a name cannot be decoded", "")
     uj = prog.func("Unit.__json__")
-    rep.check("R15.5", "Unit.__json__:base-marker", "Noneiffactors==((self,1),)elsefactors" in ast.unparse(uj.node).replace(" ", ""),
-              "Unit.__json__ no longer marks base units by factors = None", uj.where())
+    marker = False
+    local_defs = {n.targets[0].id: n.value for n in ast.walk(uj.node) if isinstance(n, ast.Assign) and len(n.targets) == 1 and isinstance(n.targets[0], ast.Name)}
+    for r in ast.walk(uj.node):
+        if isinstance(r, ast.Return) and isinstance(r.value, ast.Dict):
+            for k, v in zip(r.value.keys, r.value.values):
+                if isinstance(k, ast.Constant) and k.value == "factors":
+                    e = local_defs.get(v.id, v) if isinstance(v, ast.Name) else v
+                    txt = ast.unparse(e)
+                    marker = "None" in txt or any(isinstance(x, ast.Assign) and "None" in ast.unparse(x.value) and isinstance(v, ast.Name)
+                                                  and any(isinstance(t, ast.Name) and t.id == v.id for t in x.targets) for x in ast.walk(uj.node))
+    rep.check("R15.5", "Unit.__json__:base-marker", marker,
+              "Unit.__json__ no longer marks base units by factors = None (the reader's test for a base unit)", uj.where())
 
     # R15.6
     qc = prog.cls("Quantity")
